@@ -252,10 +252,16 @@ class Gen:
         task = self.names.fresh("Tsk")
         inst = self.names.fresh("run")
         lines = ["CONFIGURATION %s" % n]
+        gl = []
         if glob is not None:
             gname, gconst = glob
-            lines += ["  VAR_GLOBAL%s" % (" CONSTANT" if gconst else ""), "    %s : INT := 7;" % gname, "  END_VAR"]
-        lines += ["  RESOURCE %s ON PLC" % res, "    TASK %s(INTERVAL := T#100ms, PRIORITY := 1);" % task,
+            gl = ["  VAR_GLOBAL%s" % (" CONSTANT" if gconst else ""), "    %s : INT := 7;" % gname, "  END_VAR"]
+        # the global variables stand at configuration level or at resource level
+        at_resource = glob is not None and self.rng.random() < 0.4
+        if not at_resource:
+            lines += gl
+        lines += ["  RESOURCE %s ON PLC" % res] + (gl if at_resource else []) + [
+                  "    TASK %s(INTERVAL := T#100ms, PRIORITY := 1);" % task,
                   "    PROGRAM %s WITH %s : %s;" % (inst, task, prog.name), "  END_RESOURCE", "END_CONFIGURATION"]
         return Decl("configuration", n, lines, {"task": task, "program": prog.name, "global": glob})
 
@@ -293,6 +299,8 @@ def gen_valid(rng):
     decls.append(prog)
     if glob is not None or rng.random() < 0.5:
         decls.append(g.configuration(prog, glob))
+        if rng.random() < 0.35:
+            decls.append(g.configuration(prog, None))     # a second configuration (its own resource, task, instance)
     rng.shuffle(decls)
     return decls
 
